@@ -1705,7 +1705,10 @@ def _c15_segment(mod, case):
     except Exception as ex:
         return [_exc_fail("segment-length-%s" % kind, ex, "C15")]
     if abs(L - true) > _len_tol(e, true):
-        fails.append({"key": "length-accuracy:%s" % kind, "prop": "C15",
+        # severity bucket: the known defect (error semantics of the chord subdivision / quadratic closed form) stays
+        # below 2e-3 relative; anything grosser is a different failure and gets its own key
+        _bucket = "[rel<=2e-3]" if (true and abs(L - true) / true <= 2e-3) else "[gross]"
+        fails.append({"key": "length-accuracy:%s%s" % (kind, _bucket), "prop": "C15",
                       "expected": "length(error=%g) == %r within 10*error + 1e-9*length = %g" % (e, true, _len_tol(e, true)),
                       "got": "%r (off by %g = %.3g x requested error, %.3g relative)" % (L, L - true, abs(L - true) / e, abs(L - true) / true if true else float("inf")),
                       "explanation": "the reported length differs from the arc length (Gauss-Legendre quadrature of the speed) by more "
